@@ -337,6 +337,10 @@ def run (lines : Array String) : IO Report := do
           | .miss => if obs ≠ "MISS" then diff rep ln "oracle" s!"case={cid} key={opfx k}/meta spec=MISS impl={obs}"
           | _ => pure ()
           ok rep
+    | ["unload", b] =>
+        -- a served bucket was hot-unloaded: from here on it is an unserved bucket (C15)
+        if obs ≠ "ok" then diff rep ln "oracle" s!"case={cid} key=C15/unload hot unload of bucket {b}: {obs}"
+        st := { st with cfg := { st.cfg with served := st.cfg.served.filter (· != b.toNat!) } }
     | ["list", pfx] =>
         if !st.groups.isEmpty then continue
         let pfx := if pfx == "-" then "" else pfx
